@@ -42,16 +42,57 @@ struct SplineAdapter final : ISpline
     using Vec = typename S::VectorType;
     using G = typename S::Gradients;
     using BS = typename S::BoundaryStateGrads;
+    using TT = typename S::TrajectoryType;
     S own;
+    const TT *held; // reference to the exposed trajectory taken once, right after construction, and kept across updates
 
-    SplineAdapter() {}
-    explicit SplineAdapter(const S &s) : own(s) {}
-    SplineAdapter(const Problem &p, int mode)
-        : own(mode == 0   ? S(p.T, toMat(p.P), p.t0, toBC(p.bc))
-              : mode == 1 ? S(p.timePoints(), toMat(p.P), toBC(p.bc))
-              : mode == 2 ? S(p.T, toMat(p.P), p.t0)
-                          : S(p.timePoints(), toMat(p.P)))
+    SplineAdapter() : held(&own.getTrajectory()) {}
+    explicit SplineAdapter(const S &s) : own(s), held(&own.getTrajectory()) {}
+    static S construct(const Problem &p, int mode)
     {
+        if (g_routes.args == 2)
+        { // every argument a named lvalue
+            std::vector<double> T = p.T, tp = p.timePoints();
+            Mat m = toMat(p.P);
+            auto b = toBC(p.bc);
+            double t0 = p.t0;
+            return mode == 0 ? S(T, m, t0, b) : mode == 1 ? S(tp, m, b) : mode == 2 ? S(T, m, t0) : S(tp, m);
+        }
+        if (g_routes.args == 1) // every argument a temporary
+            return mode == 0   ? S(std::vector<double>(p.T), toMat(p.P), double(p.t0), toBC(p.bc))
+                   : mode == 1 ? S(p.timePoints(), toMat(p.P), toBC(p.bc))
+                   : mode == 2 ? S(std::vector<double>(p.T), toMat(p.P), double(p.t0))
+                               : S(p.timePoints(), toMat(p.P));
+        return mode == 0   ? S(p.T, toMat(p.P), p.t0, toBC(p.bc))
+               : mode == 1 ? S(p.timePoints(), toMat(p.P), toBC(p.bc))
+               : mode == 2 ? S(p.T, toMat(p.P), p.t0)
+                           : S(p.timePoints(), toMat(p.P));
+    }
+    SplineAdapter(const Problem &p, int mode) : own(construct(p, mode)), held(&own.getTrajectory()) {}
+
+    // how the exposed trajectory is reached (g_routes.access)
+    template <class F>
+    auto withTraj(F &&f) const
+    {
+        switch (g_routes.access)
+        {
+        case 1:
+            return f(own.getPPoly());
+        case 2:
+        {
+            TT c = own.getTrajectoryCopy();
+            return f(c);
+        }
+        case 3:
+        {
+            TT c = own.getPPolyCopy();
+            return f(c);
+        }
+        case 4:
+            return f(*held);
+        default:
+            return f(own.getTrajectory());
+        }
     }
 
     static Mat toMat(const MatrixXd &m)
@@ -127,20 +168,95 @@ struct SplineAdapter final : ISpline
     int dim() const override { return DIM; }
     void updateDur(const std::vector<double> &T, const MatrixXd &P, double t0, const BC &bc) override
     {
-        own.update(T, toMat(P), t0, toBC(bc));
+        if (g_routes.args == 1)
+            own.update(std::vector<double>(T), toMat(P), double(t0), toBC(bc));
+        else if (g_routes.args == 2)
+        {
+            std::vector<double> t = T;
+            Mat m = toMat(P);
+            auto b = toBC(bc);
+            double s0 = t0;
+            own.update(t, m, s0, b);
+        }
+        else
+            own.update(T, toMat(P), t0, toBC(bc));
     }
     void updatePts(const std::vector<double> &tp, const MatrixXd &P, const BC &bc) override
     {
-        own.update(tp, toMat(P), toBC(bc));
+        if (g_routes.args == 1)
+            own.update(std::vector<double>(tp), toMat(P), toBC(bc));
+        else if (g_routes.args == 2)
+        {
+            std::vector<double> t = tp;
+            Mat m = toMat(P);
+            auto b = toBC(bc);
+            own.update(t, m, b);
+        }
+        else
+            own.update(tp, toMat(P), toBC(bc));
     }
     void updateDurDefaultBC(const std::vector<double> &T, const MatrixXd &P, double t0) override
     {
-        own.update(T, toMat(P), t0);
+        if (g_routes.args == 1)
+            own.update(std::vector<double>(T), toMat(P), double(t0));
+        else if (g_routes.args == 2)
+        {
+            std::vector<double> t = T;
+            Mat m = toMat(P);
+            double s0 = t0;
+            own.update(t, m, s0);
+        }
+        else
+            own.update(T, toMat(P), t0);
     }
-    void updatePtsDefaultBC(const std::vector<double> &tp, const MatrixXd &P) override { own.update(tp, toMat(P)); }
+    void updatePtsDefaultBC(const std::vector<double> &tp, const MatrixXd &P) override
+    {
+        if (g_routes.args == 1)
+            own.update(std::vector<double>(tp), toMat(P));
+        else if (g_routes.args == 2)
+        {
+            std::vector<double> t = tp;
+            Mat m = toMat(P);
+            own.update(t, m);
+        }
+        else
+            own.update(tp, toMat(P));
+    }
+    // the object's own getters passed straight back into update() (warm restart / re-timing idiom): arguments alias members
+    void updateFromOwnGetters(int which, double t0) override
+    {
+        if (which == 0)
+            own.update(own.getTimeSegments(), own.getSpacePoints(), t0, own.getBoundaryConditions());
+        else
+            own.update(own.getCumulativeTimes(), own.getSpacePoints(), own.getBoundaryConditions());
+    }
+    // a reference bound to the result of a copy getter must be a snapshot: unaffected by a later update of the source
+    void copyRefThenUpdate(bool ppolyName, const std::vector<double> &T, const MatrixXd &P, double t0, const BC &bc, MatrixXd &coeffsOut, std::vector<double> &bpOut) override
+    {
+        if (ppolyName)
+        {
+            const TT &c = own.getPPolyCopy();
+            own.update(T, toMat(P), t0, toBC(bc));
+            coeffsOut = fromMat(c.getCoefficients());
+            bpOut = c.getBreakpoints();
+        }
+        else
+        {
+            auto &&c = own.getTrajectoryCopy();
+            own.update(T, toMat(P), t0, toBC(bc));
+            coeffsOut = fromMat(c.getCoefficients());
+            bpOut = c.getBreakpoints();
+        }
+    }
     bool isInitialized() const override { return own.isInitialized(); }
-    MatrixXd coeffs() const override { return fromMat(own.getTrajectory().getCoefficients()); }
-    std::vector<double> breakpoints() const override { return own.getTrajectory().getBreakpoints(); }
+    MatrixXd coeffs() const override
+    {
+        return withTraj([](const TT &t) { return fromMat(t.getCoefficients()); });
+    }
+    std::vector<double> breakpoints() const override
+    {
+        return withTraj([](const TT &t) { return t.getBreakpoints(); });
+    }
     std::vector<double> cumTimes() const override { return own.getCumulativeTimes(); }
     std::vector<double> timeSegments() const override { return own.getTimeSegments(); }
     double startTime() const override { return own.getStartTime(); }
@@ -233,7 +349,10 @@ struct SplineAdapter final : ISpline
         own.propagateGrad(m, g.times, g);
         return fromG(g);
     }
-    VectorXd trajEvalHint(double t, int *hint, int k) const override { return fromVec(own.getTrajectory().evaluate(t, hint, k)); }
+    VectorXd trajEvalHint(double t, int *hint, int k) const override
+    {
+        return withTraj([&](const TT &tr) { return fromVec(tr.evaluate(t, hint, k)); });
+    }
     MatrixXd partialCStale(bool sameShape) const override
     {
         Mat m = Mat::Constant(sameShape ? own.getNumSegments() * S::COEFF_NUM : own.getNumSegments() * S::COEFF_NUM + 3, DIM, -9.75);
@@ -276,12 +395,31 @@ struct SplineAdapter final : ISpline
             r(j) = v(j);
         return r;
     }
-    VectorXd trajEval(double t, int k) const override { return fromVec(own.getTrajectory().evaluate(t, k)); }
+    VectorXd trajEval(double t, int k) const override
+    {
+        return withTraj([&](const TT &tr) { return fromVec(tr.evaluate(t, k)); });
+    }
     VectorXd ppolyEval(double t, int k) const override { return fromVec(own.getPPoly().evaluate(t, k)); }
-    VectorXd segEval(int i, double tl, int k) const override { return fromVec(own.getTrajectory()[i].evaluate(tl, k)); }
-    int trajNumSegments() const override { return own.getTrajectory().getNumSegments(); }
-    int trajNumCoeffs() const override { return own.getTrajectory().getNumCoeffs(); }
-    bool trajInitialized() const override { return own.getTrajectory().isInitialized(); }
+    VectorXd segEval(int i, double tl, int k) const override
+    {
+        return withTraj([&](const TT &tr) { return fromVec(tr[i].evaluate(tl, k)); });
+    }
+    int trajNumSegments() const override
+    {
+        return withTraj([](const TT &tr) { return tr.getNumSegments(); });
+    }
+    int trajNumCoeffs() const override
+    {
+        return withTraj([](const TT &tr) { return tr.getNumCoeffs(); });
+    }
+    bool trajInitialized() const override
+    {
+        return withTraj([](const TT &tr) { return tr.isInitialized(); });
+    }
+    double trajLengthDefault() const override
+    {
+        return withTraj([](const TT &tr) { return tr.getTrajectoryLength(); });
+    }
     std::unique_ptr<IPPoly> trajectoryCopy(bool ppolyName) const override
     {
         using PP = typename S::TrajectoryType;
